@@ -98,6 +98,8 @@ class ChunkLoopTrans(LoopTrans):
         :param int options["chunksize"]: The size to chunk over for this \
                 transformation. If not specified, the value 32 is used.
 
+        :raises TransformationError: if the step size of the supplied Loop \
+            does not divide the chunk size.
         :raises TransformationError: if the supplied Loop has a step size \
                 which is not a constant value.
         :raises TransformationError: if the supplied Loop has a non-integer \
@@ -167,6 +169,14 @@ class ChunkLoopTrans(LoopTrans):
         if int(node.step_expr.value) == 0:
             raise TransformationError("Cannot apply a ChunkLoopTrans to "
                                       "a loop with a step size of 0.")
+
+        # Every chunk starts a multiple of the chunk size away from the
+        # original start, so this must be an iteration of the original loop.
+        if chunk_size % abs(int(node.step_expr.value)) != 0:
+            raise TransformationError(
+                f"Cannot apply a ChunkLoopTrans to a loop with a step size "
+                f"({node.step_expr.value}) that does not divide the chosen "
+                f"chunk size ({chunk_size}).")
 
         if len(node.loop_body.walk(CodeBlock)) != 0:
             raise TransformationError("Cannot apply a ChunkLoopTrans to "
